@@ -12,7 +12,7 @@ import numpy as np
 
 from ..core import import_library
 from ..gen import terms as G
-from ..probe import Probe, Reach
+from ..probe import Probe, Reach, plain_function
 from ..ref import norms as N
 from ..ref import terms as R
 
@@ -259,6 +259,8 @@ def gen_set(fl, rnd, batch):
             c = rnd.random()
             if c < 0.18:
                 return 0.0
+            if c < 0.24:
+                return rnd.choice([1e-4, 3e-4, 1e-9, 1e-300]) * (1.0 if fam != "tsukamoto" else min(1.0, top))
             if c < 0.3 and fam != "tsukamoto":
                 return 1.0
             if c < 0.5:
@@ -283,7 +285,8 @@ def run(ctx):
         "kind used, grouped (term, degree) list, z values) with at least two groups"
     )
     ctx.assumptions += ["z values come from the library's own membership/tsukamoto (C03/C11)", "degrees of a repeated term are folded with the scalar formulas of vf/ref/norms.py", "Tsukamoto degrees above the term's height (possible under sum-like aggregation) are out of domain", "tolerance 1e-12 x magnitude"]
-    funcs = {"WeightedAverage.defuzzify": fl.WeightedAverage.defuzzify, "WeightedSum.defuzzify": fl.WeightedSum.defuzzify, "Aggregated.grouped_terms": fl.Aggregated.grouped_terms, "WeightedDefuzzifier.infer_type": fl.WeightedDefuzzifier.__dict__["infer_type"].__func__}
+    funcs = {"WeightedAverage.defuzzify": fl.WeightedAverage.defuzzify, "WeightedSum.defuzzify": fl.WeightedSum.defuzzify, "Aggregated.grouped_terms": fl.Aggregated.grouped_terms, "WeightedDefuzzifier.infer_type": plain_function(fl.WeightedDefuzzifier, "infer_type")}
+    funcs = {k: v for k, v in funcs.items() if v is not None and hasattr(v, "__code__")}
     with Reach(funcs) as reach, Probe() as probe:
         mon = WeightedMonitor(ctx, fl)
         mon.install(probe)
@@ -321,6 +324,20 @@ def run(ctx):
             out.grouped_terms()
             for _, t in specs:
                 out.activation_degree(t)
+            # the same Aggregated object again with other contents (first emptied, then terms of possibly another kind)
+            if family != "mixed":
+                engine2, specs2, acts2, _, family2 = gen_set(fl, rnd, 0)
+                if family2 != "mixed":
+                    reused = fl.Aggregated("o", -3.0, 7.0, agg_op, [])
+                    for cls in (fl.WeightedAverage, fl.WeightedSum):
+                        dz = cls()
+                        for content in ([], [fl.Activated(t, d) for t, d in acts if np.size(d) == 1], [fl.Activated(t, d) for t, d in acts2]):
+                            reused.terms[:] = content
+                            try:
+                                dz.defuzzify(reused)
+                            except Exception:
+                                pass
+                    ctx.hit("event:aggregated object reused with other contents")
             # inferred kind of variables / sets
             for fam in ("ts", "tsukamoto", "inverse"):
                 members = [t for f, t in specs if f == fam]
@@ -334,7 +351,7 @@ def run(ctx):
                 ctx.sample("set", {"family": family, "aggregation": aggregation, "set": out.parameters(), "terms": [str(t) for _, t in specs], "WeightedAverage": safe(lambda: fl.WeightedAverage().defuzzify(out))})
         probe.report(ctx)
         reach.report(ctx)
-    ctx.require("hook:WeightedAverage.defuzzify", "hook:WeightedSum.defuzzify", "hook:Aggregated.grouped_terms", "hook:Aggregated.activation_degree", "law:zero-degree insertion", "piece:mixed-kinds", "piece:zero-degree-member", "piece:repeated-term-grouped", "piece:nan:no-activations", "piece:nan:all-weights-zero", "law:average-of-constants-bounded", "calls:WeightedAverage:batch", "calls:WeightedSum:batch")
+    ctx.require("hook:WeightedAverage.defuzzify", "hook:WeightedSum.defuzzify", "hook:Aggregated.grouped_terms", "hook:Aggregated.activation_degree", "law:zero-degree insertion", "piece:mixed-kinds", "piece:zero-degree-member", "piece:repeated-term-grouped", "piece:nan:no-activations", "piece:nan:all-weights-zero", "law:average-of-constants-bounded", "calls:WeightedAverage:batch", "calls:WeightedSum:batch", "event:aggregated object reused with other contents")
     for k in ("WeightedAverage", "WeightedSum"):
         ctx.require(f"piece:{k}:Automatic->TakagiSugeno", f"piece:{k}:Automatic->Tsukamoto", f"piece:{k}:Automatic->Automatic", f"piece:{k}:TakagiSugeno->TakagiSugeno", f"piece:{k}:Tsukamoto->Tsukamoto")
 
